@@ -141,6 +141,61 @@ func c11Check(env *h.Env, c *c11Case) error {
 	for _, w := range reported {
 		rep[w.Path] = true
 	}
+	// independent reading of the pattern semantics: the naive reference filter, level by level
+	// (the include list of a level = its patterns + the follow-path targets, in that order)
+	snapAll, serr := h.Snapshot(srcDir)
+	if serr != nil {
+		return h.Infra(serr)
+	}
+	refView := func(chain bool) ([]string, error) {
+		var listing []h.FilterEntry
+		for _, p := range snapAll.Paths() {
+			listing = append(listing, h.FilterEntry{Path: p, IsDir: snapAll[p].Kind == h.KDir})
+		}
+		mk := h.NewRefMatcher
+		if chain {
+			mk = h.NewChainMatcher
+		}
+		for _, l := range eff {
+			inc, err := mk(l.inc)
+			if err != nil {
+				return nil, err
+			}
+			exc, err := mk(l.exc)
+			if err != nil {
+				return nil, err
+			}
+			r, err := h.RefFilter(listing, inc, exc, nil, nil)
+			if err != nil {
+				return nil, err
+			}
+			isDir := map[string]bool{}
+			for _, e := range listing {
+				isDir[e.Path] = e.IsDir
+			}
+			listing = nil
+			for _, p := range r.Reported {
+				listing = append(listing, h.FilterEntry{Path: p, IsDir: isDir[p]})
+			}
+		}
+		var out []string
+		for _, e := range listing {
+			out = append(out, e.Path)
+		}
+		return out, nil
+	}
+	if want, err := refView(false); err == nil {
+		var got []string
+		for _, w := range reported {
+			got = append(got, w.Path)
+		}
+		if !sameStrings(got, want) {
+			if cw, cerr := refView(true); cerr == nil && sameStrings(got, cw) {
+				return env.Known("patternmatcher-parent-results-divergence", "filter stack %+v: walk reports %v, the naive reference %v; the parent-results chain model reproduces the walk", c.Levels, got, want)
+			}
+			return fmt.Errorf("filter stack %+v (effective includes %v): the view's walk reports %v, the reference evaluation of the same pattern lists selects %v", c.Levels, eff, got, want)
+		}
+	}
 	// divergence of the dependency's two evaluators on some path => the known finding may explain a mismatch
 	diverges := func(p string) bool {
 		for _, l := range eff {
